@@ -92,6 +92,7 @@ type c06Hello struct {
 	Entries []c06SNIEntry
 	HasSNI  bool
 	NExt    int
+	NoExt   bool // the hello ends after the compression methods (no extension block at all)
 	Classes []string
 }
 
@@ -240,9 +241,15 @@ func c06GenHello(t *rapid.T, quic bool) *c06Hello {
 	body = append(body, byte(len(comp)))
 	body = append(body, comp...)
 
-	noExt := !quic && rapid.IntRange(0, 29).Draw(t, "noextensions") == 17
-	if noExt {
+	// A hello without extension block / with an empty one is legal TLS 1.2 syntax; no
+	// QUIC client emits it, but it is a complete hello that can never yield a name.
+	shape := rapid.IntRange(0, 29).Draw(t, "noextensions")
+	if shape == 17 {
+		h.NoExt = true
 		h.Classes = append(h.Classes, "tls:no_extension_block")
+	} else if shape == 23 {
+		body = append(body, 0, 0)
+		h.Classes = append(h.Classes, "tls:empty_extension_block")
 	} else {
 		kinds := rapid.SliceOfNDistinct(rapid.SampledFrom(c06ExtKinds), 0, 14, func(s string) string { return s }).Draw(t, "extkinds")
 		if quic {
@@ -340,6 +347,7 @@ type c06RefResult struct {
 	HasName    bool   // ... with exactly one host_name entry whose bytes are plain ASCII name characters
 	Name       string // that entry
 	Len        int    // bytes of the handshake message (4 + body)
+	NoExt      bool   // well-formed, ends after the compression methods
 }
 
 func c06PlainName(b []byte) bool {
@@ -406,7 +414,7 @@ func c06RefHello(b []byte) (r c06RefResult) {
 		return
 	}
 	if len(p) == 0 {
-		r.WellFormed = true // no extension block at all
+		r.WellFormed, r.NoExt = true, true // no extension block at all
 		return
 	}
 	l = take(2)
